@@ -86,6 +86,8 @@ pub struct GenCfg {
     /// restrict to queries from these pool indices (empty = all exec_safe)
     pub pool_filter: Vec<usize>,
     pub keyword_names: bool,
+    /// percent of programs in which 1-2 random expressions are replaced by random ill-typed ones
+    pub ast_mutation_pct: usize,
 }
 
 impl GenCfg {
@@ -102,6 +104,7 @@ impl GenCfg {
             forward_refs: false,
             pool_filter: vec![],
             keyword_names: true,
+            ast_mutation_pct: 6,
         }
     }
     pub fn order_insensitive() -> GenCfg {
@@ -1742,11 +1745,18 @@ pub fn gen_program(rng: &mut Rng, cfg: &GenCfg) -> GenProgram {
         fault = inject_runtime_fault(g.rng, &mut file);
         file.number();
     }
+    let mut features = g.features;
+    if g.rng.chance(cfg.ast_mutation_pct, 100) {
+        let n = g.rng.range(1, 2);
+        if mutate_ast(g.rng, &mut file, n) > 0 {
+            features.push("ast_mutation");
+        }
+    }
     GenProgram {
         file,
         globals,
         fault,
-        features: g.features,
+        features,
     }
 }
 
@@ -1809,4 +1819,102 @@ pub fn inject_runtime_fault(rng: &mut Rng, file: &mut GFile) -> Option<String> {
         st.stmts.insert(pos + k, x);
     }
     Some(name.to_string())
+}
+
+// ------------------------------------------------------------------------------------------
+// AST-level mutation: replace random expressions by random (usually ill-typed) ones. The result
+// usually still loads (when the static rules happen to hold) and then fails or succeeds at run
+// time in ways the reference model predicts.
+
+fn visit_exprs_mut(stmts: &mut Vec<GStmt>, f: &mut dyn FnMut(&mut GExpr)) {
+    fn attrs(a: &mut Vec<GAttr>, f: &mut dyn FnMut(&mut GExpr)) {
+        for x in a.iter_mut() {
+            if let Some(v) = &mut x.value {
+                f(v);
+            }
+        }
+    }
+    for s in stmts.iter_mut() {
+        match &mut s.kind {
+            StmtKind::Let(_, e) | StmtKind::Var(_, e) | StmtKind::Set(_, e) => f(e),
+            StmtKind::Node(_) => {}
+            StmtKind::Edge(a, b) => {
+                f(a);
+                f(b);
+            }
+            StmtKind::AttrNode(n, at) => {
+                f(n);
+                attrs(at, f);
+            }
+            StmtKind::AttrEdge(a, b, at) => {
+                f(a);
+                f(b);
+                attrs(at, f);
+            }
+            StmtKind::Print(xs) => xs.iter_mut().for_each(|x| f(x)),
+            StmtKind::Scan(e, arms) => {
+                f(e);
+                for a in arms.iter_mut() {
+                    visit_exprs_mut(&mut a.stmts, f);
+                }
+            }
+            StmtKind::If(arms) => {
+                // conditions are left alone: whether a later clause is evaluated after a false
+                // earlier one is unspecified, so clauses must stay pure and total
+                for a in arms.iter_mut() {
+                    visit_exprs_mut(&mut a.stmts, f);
+                }
+            }
+            StmtKind::For(_, e, body) => {
+                f(e);
+                visit_exprs_mut(body, f);
+            }
+        }
+    }
+}
+
+fn random_untyped(rng: &mut Rng) -> GExpr {
+    match rng.below(10) {
+        0 => GExpr::Null,
+        1 => GExpr::True,
+        2 => GExpr::Int(*rng.pick(&[0u32, 7, 4294967295])),
+        3 => GExpr::str(*rng.pick(STR_POOL)),
+        4 => GExpr::List(vec![GExpr::Int(1), GExpr::str("two")]),
+        5 => GExpr::Set(vec![GExpr::Null]),
+        6 => GExpr::call("node", vec![]),
+        7 => GExpr::call("plus", vec![GExpr::Int(4294967295), GExpr::Int(rng.below(2) as u32)]),
+        8 => GExpr::call(*rng.pick(&["is-null", "not", "length", "source-text", "no-such-fn"]), vec![GExpr::Int(3)]),
+        _ => GExpr::RegexCap(rng.below(3)),
+    }
+}
+
+/// Replace `count` random expressions of the file. Returns how many were replaced.
+pub fn mutate_ast(rng: &mut Rng, file: &mut GFile, count: usize) -> usize {
+    let mut total = 0usize;
+    for st in file.stanzas_mut() {
+        visit_exprs_mut(&mut st.stmts, &mut |_| total += 1);
+    }
+    if total == 0 {
+        return 0;
+    }
+    let mut done = 0;
+    for _ in 0..count {
+        let target = rng.below(total);
+        let replacement = random_untyped(rng);
+        let mut k = 0usize;
+        let mut repl = Some(replacement);
+        for st in file.stanzas_mut() {
+            visit_exprs_mut(&mut st.stmts, &mut |e| {
+                if k == target {
+                    if let Some(r) = repl.take() {
+                        *e = r;
+                    }
+                }
+                k += 1;
+            });
+        }
+        done += 1;
+    }
+    file.number();
+    done
 }
